@@ -5,7 +5,7 @@ import "strings"
 func init() {
 	register(&propSpec{
 		ID:    "C05",
-		Rules: []func(*Ctx){ruleR05a, ruleR05b, ruleR05f, ruleR05g, ruleR05h, ruleR05i, ruleR05j, ruleR05k, ruleR15h, func(c *Ctx) { ruleLockPairing(c, "R09e") }},
+		Rules: []func(*Ctx){ruleR05a, ruleR05b, ruleR05f, ruleR05g, ruleR05h, ruleR05i, ruleR05j, ruleR05k, ruleR05l, ruleR15h, func(c *Ctx) { ruleLockPairing(c, "R09e") }},
 		Explain: "R05a: every scanner loop that reads input is evaluated with each rune read yielding eof (the source predicates are evaluated on that one constant) and must leave within a bounded unrolling;  R05g: for each read site in turn, when that read yields eof no manual rewind of the scanner position follows before another read; R05h: every manual rewind is by the recorded width, a constant, or inside the start guard (anything else is undecided)." +
 			"R05b: every parser loop that reads tokens is evaluated with reads yielding the closed-channel item / EOF / error item and must leave (return, break, or a raising call); " +
 			"R05f: the scanner's end-of-input state transition graph is acyclic and ends in nil. R05i: a computed slice bound (e+K) on the string parameter of the parser's string helpers is dominated by a test of that very bound against the length. R05h also: a backward scan of the position stops at the token start; R05j: a constant-position read of an input string or token list is dominated by a test that the position exists; R05k: a table indexed by a rune excludes the negative end-of-input sentinel. R09e: every mutex locked in the module is unlocked on every returning path. R05i also covers constant bounds.",
@@ -37,7 +37,7 @@ func init() {
 func init() {
 	register(&propSpec{
 		ID:         "C09",
-		Rules:      []func(*Ctx){ruleR09a, ruleR08b, ruleR08d, ruleR09b, ruleR09c, ruleR09d, ruleR19n, func(c *Ctx) { ruleLockPairing(c, "R09e") }},
+		Rules:      []func(*Ctx){ruleR09a, ruleR08b, ruleR08d, ruleR09b, ruleR09c, ruleR09d, ruleR09f, ruleR19n, func(c *Ctx) { ruleLockPairing(c, "R09e") }},
 		Explain:    "R09a: the C08 effect analysis over every concurrent entry (render, JS generation; for parse/compile entries: package-state writes only) - no shared-memory write means no race among them; R08b: scope-frame freshness typestate; R09b: lexer fields written by the scanner goroutine and touched by the parser are disjoint except the channel; R09c: run closes the channel on every exit; R09d: no goroutine is started on the render path. R08d as under C08. R09e: every mutex locked is unlocked on every returning path.",
 		NotDecided: "schedules as such are not explored; third-party writers, bundles and callbacks; Bundle.recompiler (WatchFiles), which upstream documents as not goroutine-safe.",
 		Assumes:    []string{"absence of shared writes is the sufficient condition for race freedom used here", "VTA call graph (CHA in thorough)", "channel operations synchronise"},
@@ -77,7 +77,7 @@ func init() {
 func init() {
 	register(&propSpec{
 		ID:         "C06",
-		Rules:      []func(*Ctx){ruleR06a, ruleR06b, ruleR06c, ruleR06d, ruleR06e, ruleR06f, ruleR02e, ruleR05i, ruleR05k, ruleR19h, ruleR06g, func(c *Ctx) { ruleConstIndexGuards(c, "R06h", "", 0) }},
+		Rules:      []func(*Ctx){ruleR06a, ruleR06b, ruleR06c, ruleR06d, ruleR06e, ruleR06f, ruleR02e, ruleR05i, ruleR05k, ruleR19h, ruleR06g, ruleR06i, func(c *Ctx) { ruleConstIndexGuards(c, "R06h", "", 0) }},
 		Explain:    "R06a: every exported soyhtml entry that can reach the tree walker defers the recover handler (with its named error) first, and the handler assigns the error on every recovered path; R06b: the handler's own call tree (errRecover, errorf, errFromNode, callAnnotation, Registry.Filename/LineNumber/ColNumber, NewErrFilePosf) contains no unguarded nil dereference of a field, slice bound, index or single-value type assertion; R06c: Registry.Add rejects an already-registered template name before recording it; R06d: every non-range loop reachable from a render entry is a counted loop with a fixed-sign step or a sign guard; R06e: code that runs before/outside the recover contains no explicit raise except named exceptions; R06f: user callbacks (Func.Apply, PrintDirective.Apply) are invoked only under a recover. R02e/R02f (shared with C02): callee state and unconditional param binding, on which the termination of recursive templates with inherited data rests. R05i: the string helper cuts a unicode escape only after testing the bound. R06c covers every table of the registry that its look-up functions read. R05k: the scanner's character predicates do not fault on the end-of-input sentinel; R19h: no position look-up selects a file by name. R06g: no static call cycle among the methods of the scalar value types; R06h: constant-position reads in the root package (the globals reader) are guarded.",
 		NotDecided: "data-bounded recursion (excluded by the property); faults inside user callbacks beyond the recover wrapper; exhaustion of memory by legitimately large data.",
 		Assumes:    []string{"fmt recovers panics raised by String()/Error() methods it calls", "positions stored in parse-tree nodes are non-negative"},
@@ -110,7 +110,7 @@ func init() {
 func init() {
 	register(&propSpec{
 		ID: "C10",
-		Rules: []func(*Ctx){ruleR10a, ruleR10b, ruleR10c, ruleR10d, ruleR10f, ruleR10g, ruleR10i, ruleR10j, ruleR10k, ruleR17a, ruleR15h, func(c *Ctx) {
+		Rules: []func(*Ctx){ruleR10a, ruleR10b, ruleR10c, ruleR10d, ruleR10f, ruleR10g, ruleR10i, ruleR10j, ruleR10k, ruleR10l, ruleR17a, ruleR15h, func(c *Ctx) {
 			ruleR07iFor(c, func(k string) bool { return strings.Contains(k, "Msgs") || strings.HasPrefix(k, "soymsg") }, 2, 2)
 		}, func(c *Ctx) { ruleR07j(c, "R07j", []string{"parsepasses", "soymsg"}, 5) }},
 		Explain:    "R10a: no range over a map on the id / placeholder-name path is order-sensitive (K6); R10b: of ast.MsgNode the id computation reads only Body and Meaning, reads no source position, and reads only package variables that are never written after init (SSA field-read sets over the reachable functions); R10c: ids and placeholder names are assigned only in soymsg, which is called only from the compile pass and the extractor. R10d: the suffix-collision test consults the base-name table; R10e: all plural bodies are fingerprinted with braced placeholders. R10f: two placeholders share a name only when their complete printed text is equal; R10g: calcID, setPlaceholderNames and SetPlaceholdersAndID take the message node and nothing else; R10i: the hash's block loop and tail switch partition the input (a case for every residual length); R07i/R07j: the message pass prunes no parent node and, where it descends by hand, mentions every node-holding field. R10j: underscore runs in placeholder names are collapsed by a whole-run pattern, not by a fixed-width replace. R10k: each arm of parseDataRef builds access nodes of one kind; R17a: operator printers parenthesise operator operands (printed text is what placeholders are compared by).",
@@ -134,7 +134,7 @@ func init() {
 func init() {
 	register(&propSpec{
 		ID: "C07",
-		Rules: []func(*Ctx){ruleR07a, func(c *Ctx) { ruleR07bFor(c, true, false) }, ruleR07c, ruleR07d, ruleR07e, ruleR07f, ruleR07g, ruleR07k, ruleR07l, ruleR07m, ruleR07n, ruleR07o, func(c *Ctx) {
+		Rules: []func(*Ctx){ruleR07a, func(c *Ctx) { ruleR07bFor(c, true, false) }, ruleR07c, ruleR07d, ruleR07e, ruleR07f, ruleR07g, ruleR07k, ruleR07l, ruleR07m, ruleR07n, ruleR07o, ruleR07p, func(c *Ctx) {
 			ruleR07iFor(c, func(k string) bool { return strings.HasPrefix(k, "parsepasses.templateChecker") }, 1, 4)
 		}, func(c *Ctx) { ruleR07j(c, "R07j", []string{"parsepasses"}, 3, "parsepasses.templateChecker") }, func(c *Ctx) { ruleBlocks(c, "R07c-blocks", "soyhtml", 8) }},
 		Explain:    "R07a: on every success path Compile has parsed and registered every file and run CheckDataRefs, SetGlobals and ProcessMessages, and honours each error (go/cfg must-pass + SSA error discipline); R07b: the node kinds that bind a name agree between the compile-time checker, the Go renderer and the JavaScript generator, and data references are checked; R07c: every node-typed field of every AST node type is returned by its Children(), so no reference escapes the tree passes; the interpreter ends a {let} at least as early as the checker assumes (block frames); R07d: the one-declaration-mechanism test precedes recording a template. R07e: the checker brings a binder into scope exactly where the language does (a {let} after its own definition, a loop variable for the loop body only). R07f: at scope exit the checker's stacks are read only from the mark taken at scope entry (helpers included); R07g: names passed under data=all come from the declared params; R07i: the checker prunes no parent node; R07j: arms that descend by hand mention every node-holding field; R07k: a reference is recorded as a param use only after the locals in scope were searched; R07l: a constant flag set under a condition inside a loop and recorded in the item built there is not declared outside the loop; R07m: a template's soydoc is the node just before it or a fresh one. R07n: parseTernary returns the node holding the condition and both branches on every path (nothing is folded away before the checker runs). R07c also: list fields are returned element for element by Children(); R07o: both forms of {let} are tested against the name ij.",
@@ -146,7 +146,7 @@ func init() {
 func init() {
 	register(&propSpec{
 		ID:         "C01",
-		Rules:      []func(*Ctx){ruleR01a, ruleR01b, ruleR01c, ruleR01d, ruleR01e, ruleR01f, ruleR01g, ruleR01h, ruleR01i, ruleR01j, ruleR01k, ruleR01l, ruleR07c, ruleR20f, func(c *Ctx) { ruleR07iFor(c, func(k string) bool { return strings.Contains(k, "Globals") }, 1, 0) }},
+		Rules:      []func(*Ctx){ruleR01a, ruleR01b, ruleR01c, ruleR01d, ruleR01e, ruleR01f, ruleR01g, ruleR01h, ruleR01i, ruleR01j, ruleR01k, ruleR01l, ruleR01m, ruleR07c, ruleR20f, func(c *Ctx) { ruleR07iFor(c, func(k string) bool { return strings.Contains(k, "Globals") }, 1, 0) }},
 		Explain:    "R01a: every token that can start an expression (evaluated over all token kinds) starts an implicit print; R01b: lexNegative evaluated for every token kind that can precede '-' agrees with the language partition (subtraction exactly after a complete operand); R01c: each operator's pipeline (scanner symbol, operator class, precedence entry, node constructor, Go and JS cases) is complete, the relative precedence order of all operator pairs equals the language table and binary operators are left-associative; R01d: every node type the parser builds has an evaluator case or a named parent; R01e: each operator case of the Go evaluator applies the language's operator to (Arg1, Arg2) in order, the ternary and ?: select as defined; R01f: built-in functions exist with the language's arities; R07c: Children() completeness (so globals are set on every GlobalNode). R20f: Int and Float are compared as float64 in both directions. R01g: every size handed to make in the renderer is non-negative by construction or guarded; R07i: the globals pass prunes no node type that has children. R01h: the value-node constructor, evaluated on each number spelling the scanner accepts (decimal, hexadecimal, plain and exponent floats; strconv folded on the constant text), returns a node on some path; R01i: map-literal keys are unescaped strings (a parsed string's Value or unquoteString); R01j: an undefined expression value fails the print before any directive is applied. R01k: hexadecimal escapes are decoded with a bit size admitting 0xFFFF; R01l: a null-safe access on a missing value returns null for the whole reference.",
 		NotDecided: "every value-level clause: integer/float arithmetic results, string/number formatting, truthiness and equality values, literal decoding, function results, 'undefined is an error'.",
 		Assumes:    []string{"the frozen language tables in the checker (operator levels, operand-ending tokens, function arities) transcribe the Soy language reference"},
@@ -166,7 +166,7 @@ func init() {
 func init() {
 	register(&propSpec{
 		ID: "C11",
-		Rules: []func(*Ctx){ruleR11a, ruleR11b, ruleR11c, ruleR11d, ruleR11f, ruleR11g, ruleR11h, ruleR10f, ruleR02h, ruleR10c, ruleR10i, func(c *Ctx) {
+		Rules: []func(*Ctx){ruleR11a, ruleR11b, ruleR11c, ruleR11d, ruleR11f, ruleR11g, ruleR11h, ruleR11i, ruleR10f, ruleR02h, ruleR10c, ruleR10i, func(c *Ctx) {
 			ruleR07iFor(c, func(k string) bool { return strings.Contains(k, "Msgs") || strings.HasPrefix(k, "soymsg") }, 2, 2)
 		}},
 		Explain:    "R11a: every kind of soymsg.Part that the module constructs has a non-empty case in both backends' part renderers; R11b: the reference keys the extractor writes (id=, var=) are exactly those the catalogue loader reads, the loader skips exactly the tested prefix, and the msgid writer's { } placeholder syntax matches the reader's pattern; R11c: placeholders and plural variables are looked up and printed by the very fields the naming pass assigns (Name, VarName); R10c: those fields are assigned only by the naming pass. R11d: the loader's per-entry variables are declared inside the loop over catalogue entries; R11e: translated text is written raw, as source raw text is; R02h: a called template's state carries the message bundle. R11f: the node rendered for a placeholder is the direct result of the Placeholder look-up on the message being rendered, in both backends. R11g: the bundle keeps the catalogue's own plural rule and applies it to the number itself; R10f: placeholders merge only on equal complete printed text. R11h: the functions rendering a message's source form never read the bundle; the message pass prunes no node type that has children (R07i).",
@@ -185,7 +185,7 @@ func init() {
 	})
 	register(&propSpec{
 		ID:         "C20",
-		Rules:      []func(*Ctx){ruleR20a, ruleR20b, ruleR20c, ruleR20d, ruleR20f, ruleR20g, ruleR20h, ruleR08d},
+		Rules:      []func(*Ctx){ruleR20a, ruleR20b, ruleR20c, ruleR20d, ruleR20f, ruleR20g, ruleR20h, ruleR20i, ruleR08d},
 		Explain:    "R20a: no comparison against math.NaN(); R20b: the pairs of value kinds that Equals can accept form a symmetric relation that includes Int~Float; R20c: the reflect-kind switch of the conversion covers every kind the statement lists, unwraps pointers/interfaces, returns on nil before use, recognises time.Time before structs and nil slices before indexing; R20d: each Truthy is a single expression over the receiver and, evaluated on sample constants, follows the language table (null, false, 0, 0.0, NaN, \"\" falsy). R20f: the cross-kind arms of Int.Equals and Float.Equals compare both values as float64. R20g: strings in package data are cut only at rune boundaries known by provenance (0, len, size of a decoded rune); R20h: no function of package data depends on map iteration order. R08d: no cache in a package variable or a synchronised container is consulted during conversion.",
 		NotDecided: "scalar fidelity of the conversion, idempotence, lowerCamel field names, equality of values (only the acceptance relation is decided), printing.",
 		Assumes:    []string{"the language's truthiness table in the checker"},
